@@ -984,7 +984,10 @@ func (s *session) opSC(specs []string, op string, idx int) (string, []corr.Fail)
 		items[i] = it
 		scs[i] = sc
 	}
+	poolBefore := s.poolKeys()
+	refVerdict, refAdded, refOK := s.refMessage(specs) // single.go: every commit under the parameters of its own height
 	res := n.SubmitSingleCommits(scs...)
+	fails = append(fails, s.afterMessage(specs, poolBefore, vresStr(res), refVerdict, refAdded, refOK, op, idx)...)
 	if res == p2p.ValidationAccept {
 		fails = append(fails, corr.Fail{Sig: SigAccepted, Op: idx, Detail: op + ": ValidationAccept (the message would be republished)"})
 	}
